@@ -322,12 +322,9 @@ def df_history(inp, W):
 def _lod_ids(lod):
     return [item.get("id") for item in lod]
 
-@op
-def lod_op(inp, W):
-    data = inp["data"]; m = inp["method"]
+def _lod_call(inp, W, data):
+    m = inp["method"]
     di = W.di
-    before = [dict(x) for x in data]
-    extra = {}
     if m in ("filter", "filter_out"):
         if inp["cond"] == "function":
             table = inp["pred"]
@@ -377,7 +374,19 @@ def lod_op(inp, W):
         out = data.deepcopy()
     else:
         raise ValueError(m)
+    return out
+
+@op
+def lod_op(inp, W):
+    from .tree import Raised
+    data = inp["data"]
+    before = [dict(x) for x in data]
+    try:
+        out = _lod_call(inp, W, data)
+    except Exception as e:
+        out = Raised(type(e).__name__, str(e)[:200])
     return {"out": out, "before": before, "recv_items": [dict(x) for x in data]}
+
 
 # ---------------------------------------------------------------------------- C16 ListOfDicts joins / aggregate
 
